@@ -141,11 +141,11 @@ fn model_write(value: &mut MOVal, wr: Wr) -> (Out, bool) {
             }
         }
         Wr::Update(d) => {
-            value.1 = value.1.wrapping_add(d);
+            *value = crate::val::bump_m(*value, d);
             (Out::Unit, true)
         }
         Wr::UpdateIf(d, n) => {
-            value.1 = value.1.wrapping_add(d);
+            *value = crate::val::bump_m(*value, d);
             (Out::Unit, n)
         }
     }
